@@ -553,6 +553,41 @@ theorem skip_path_purges (env : Env) (s : State E) (hp : s.pending = true) (hg :
     rcases handleTurn_cases env s with ⟨_, h'⟩ | ⟨d, _, _, h'⟩ | ⟨_, _, h'⟩ <;> rw [h'] <;>
       exact ⟨by simp [nextState, hc'], by simp [nextState, hc'], hn⟩
 
+/-- The pass after which every SELECTED handler has finished closes the cycle WHATEVER other records the object
+    carries — e.g. the UNFINISHED record, same purpose, of a handler that is not selected any more (its field was
+    reverted, its label flipped, while it was retrying: the history of seed C03d): the last-handled state becomes the
+    essence, `fully_handled_once` is set and EVERY owned record is purged, that one included. No hypothesis on `s.P`. -/
+theorem closing_ignores_unselected_records (env : Env) (wf : WF env) (s : State E)
+    (hp : s.pending = true) (hg : s.gone = false)
+    (ha : adjusting env s = false) (hpm : env.prematch = true) (hmk : s.marked = false)
+    (hh : isHandler s = true) (hne : (selOf env s).isEmpty = false)
+    (hall : ∀ i ∈ selOf env s, ∃ h, postState (cfgOf env s) s.P s.now s.now env.exec i = some h ∧
+      h.r.finished = true) :
+    (loopStep env s).base = some s.ess ∧ (loopStep env s).fullyHandled = true ∧
+    ∀ i ∈ env.owned, (loopStep env s).P i = none := by
+  have hc : (pass env s).closed = true :=
+    (closed_iff_all_finished (cfgOf env s) s.P s.now s.now env.exec (fun i hi => selOf_sub env wf s i hi) hh hne).2 hall
+  have hn : ∀ i ∈ env.owned, (pass env s).P' i = none :=
+    closed_purges (cfgOf env s) s.P s.now s.now env.exec hh hne hc
+  rcases turn_cases env s hp hg with ⟨h1, _⟩ | ⟨h1, _⟩ | ⟨_, h1, _⟩ | ⟨_, _, h1, _⟩ | ⟨_, _, _, _, h⟩
+  · unfold adjusting at ha; simp [h1] at ha
+  · unfold adjusting at ha; simp [h1] at ha
+  · rw [hpm] at h1; cases h1
+  · rw [hmk] at h1; cases h1
+  · rw [h]
+    rcases handleTurn_cases env s with ⟨_, h'⟩ | ⟨d, _, _, h'⟩ | ⟨_, _, h'⟩ <;> rw [h'] <;>
+      exact ⟨by simp [nextState, hc], by simp [nextState, hc], hn⟩
+
+/-- What the pass invokes and whether it closes the cycle depends on the records of the SELECTED handlers only:
+    replace every other record of the object by anything (`Q`), the pass decides alike. -/
+theorem pass_ignores_unselected_records (env : Env) (wf : WF env) (s : State E) (Q : C02.Store)
+    (hagree : ∀ i ∈ selOf env s, s.P i = Q i) :
+    (pass env { s with P := Q }).closed = (pass env s).closed ∧
+    (pass env { s with P := Q }).invoked = (pass env s).invoked := by
+  have h := closed_ignores_unselected_records (cfgOf env s) s.P Q s.now s.now env.exec
+    (fun i hi => selOf_sub env wf s i hi) hagree
+  exact ⟨h.1.symm, h.2.symm⟩
+
 /-! ### filters that read what the framework writes: the guard, made explicit -/
 
 theorem iter_succ' (env : Env) (n : Nat) : ∀ s : State E, iter env (n + 1) s = loopStep env (iter env n s) := by
@@ -658,6 +693,51 @@ theorem stale_record_purged_instance :
     (iter (envW true) 3 (stateW (some 0) 1)).writes = (iter (envW true) 2 (stateW (some 0) 1)).writes :=
   ⟨envW_wf true, fun _ _ => rfl, stateW_uniform true _ _, by decide, by decide, by decide, by decide, by decide,
    by decide, by decide⟩
+
+/-- handlers `hx = @on.update(field='spec.x')` and `hy = @on.update(field='spec.y')`; the outstanding change is in
+    spec.y only (spec.x was changed and reverted): `hy` alone is selected for the update -/
+def envX : Env :=
+  { owned := ["hx/spec.x", "hy/spec.y"], subs := [],
+    sel := fun c => if c.reason = .update then ["hy/spec.y"] else [],
+    initialH := fun _ => false,
+    limits := fun _ => ⟨none, none⟩, lifecycle := .asap, exec := fun _ _ => okOutcome,
+    prematch := true, changeReq := false, foreignFins := false, constPatch := false, lat := 1, rtt := 1, cap := 38400 }
+
+/-- `hx` failed temporarily when spec.x changed (retry in 3600 s); its unfinished record is still there -/
+def stateX : State Nat :=
+  { P := fun i => if i = "hx/spec.x" then some C02.seedRecX else none, base := some 0, ess := 1,
+    marked := false, blocked := false, gone := false,
+    noticed := true, fullyHandled := true, resumed := [], now := 515, pending := true, writes := 0 }
+
+theorem envX_wf : WF envX := by
+  refine ⟨?_, by decide, by decide, by decide⟩
+  intro c i hi
+  simp only [envX] at hi ⊢
+  split at hi
+  · simp at hi; simp [hi]
+  · simp at hi
+
+theorem stateX_uniform : Uniform envX stateX := by
+  refine ⟨"update", ?_⟩
+  intro i _ r hP
+  simp only [stateX] at hP
+  split at hP
+  · cases hP; rfl
+  · cases hP
+
+/-- The history of seed C03d as an instance (non-vacuity of `closing_ignores_unselected_records` and of `converges`
+    on such states): the first turn invokes `hy` only, closes the cycle and purges BOTH records although `hx`'s is
+    unfinished (and would not be due for an hour); the echo finds nothing to do; a further event writes nothing. -/
+theorem deselected_unfinished_instance :
+    WF envX ∧ AllFinal envX ∧ Uniform envX stateX ∧ isHandler stateX = true ∧
+    selOf envX stateX = ["hy/spec.y"] ∧ unfin stateX.P "hx/spec.x" = true ∧ (stateX.P "hx/spec.x").isSome = true ∧
+    (pass envX stateX).invoked = [("hy/spec.y", 0)] ∧ (pass envX stateX).closed = true ∧
+    (iter envX 1 stateX).base = some 1 ∧ (iter envX 1 stateX).P "hx/spec.x" = none ∧
+    (iter envX 1 stateX).P "hy/spec.y" = none ∧
+    (iter envX 2 stateX).pending = false ∧ (iter envX 2 stateX).base = some 1 ∧
+    (iter envX 3 stateX).writes = (iter envX 2 stateX).writes :=
+  ⟨envX_wf, fun _ _ => rfl, stateX_uniform, by decide, by decide, by decide, by decide, by decide, by decide,
+   by decide, by decide, by decide, by decide, by decide, by decide⟩
 
 /-- The former C03-F3 scenario as a regression instance (repaired by d1b2dc4): the change `u0` was
     retrying for has been reverted to the last-handled state; the no-op cause purges the leftover record
